@@ -30,11 +30,14 @@ REQUIRED_THEOREMS = [
     "TapkeeVerif.C19.spe_global_pairs_distinct",
     "TapkeeVerif.C19.spe_indices_perm_local_refuted",
     "TapkeeVerif.C19.spe_indices_local_partial",
+    "TapkeeVerif.C19.spe_local_duplicate_first_members",
+    "TapkeeVerif.C19.spe_floor_pick_in_range",
     "TapkeeVerif.C19.spe_pair_step_contracts",
     "TapkeeVerif.C19.spe_fixed_point",
     "TapkeeVerif.C19.rp_translation_invariant",
     "TapkeeVerif.C19.rp_is_linear_in_centred_data",
     "TapkeeVerif.C19.fa_translation_invariant",
+    "TapkeeVerif.C19.fa_is_centred_times_loading",
 ]
 
 APPROX = Fraction(1, 2 ** 30)
